@@ -15,6 +15,8 @@ pub fn all_sites() -> Vec<(&'static str, SiteFn)> {
         ("GatesGen", site_gates as SiteFn),
         ("FmtGen", site_fmt as SiteFn),
         ("CmpGen", site_cmp as SiteFn),
+        ("SizeGen", site_size as SiteFn),
+        ("PipeGen", site_pipe as SiteFn),
     ]
 }
 
@@ -759,5 +761,193 @@ fn site_cmp(src: &Path) -> String {
         writeln!(o, "Definition {} (o : Op) {} : bool :=\n  match o with\n  {}\n  end.", name, sig, arms.join("\n  ")).unwrap();
     }
     o.push_str("(* cmp_float_as_Z: the Float arm's table with the operands read as integers (same relation symbols);\n   cmp_boolZ: the Bool arm with false = 0, true = 1 (Rust's bool ordering). *)\n");
+    o
+}
+
+// ---------------- E14: util/mod.rs parse_filesize ladder, str_to_bool, has_extension ----------------
+
+struct NumLits {
+    lits: Vec<String>,
+}
+impl<'a> syn::visit::Visit<'a> for NumLits {
+    fn visit_lit_float(&mut self, l: &'a LitFloat) {
+        self.lits.push(l.base10_digits().to_string());
+    }
+    fn visit_lit_int(&mut self, l: &'a LitInt) {
+        self.lits.push(l.base10_digits().to_string());
+    }
+}
+
+fn between<'a>(hay: &'a str, a: &str, b: &str) -> Option<&'a str> {
+    let i = hay.find(a)? + a.len();
+    let j = hay[i..].find(b)? + i;
+    Some(&hay[i..j])
+}
+
+fn site_size(src: &Path) -> String {
+    use syn::visit::Visit;
+    let file = read_file(src, "util/mod.rs");
+    let f = find_fn(&file.items, "parse_filesize").expect("parse_filesize");
+    let mut o = String::from(HDR_N);
+    o.push_str("(* from src/util/mod.rs *)\n");
+    let whole = qs(&f.block).replace(' ', "");
+    let lowers = whole.contains("to_ascii_lowercase()");
+    let strips = whole.contains(".replace(\"\",\"\")") || whole.contains("replace(\" \",\"\")");
+    let mut rungs = vec![];
+    let mut final_parse = None;
+    for st in &f.block.stmts {
+        match st {
+            Stmt::Expr(Expr::If(i), _) => {
+                let cond = qs(&i.cond).replace(' ', "");
+                let n: u64 = between(&cond, "length>", "&&").unwrap_or_else(|| panic!("size rung condition {}", cond)).parse().expect("rung length");
+                let sfx = between(&cond, "ends_with(\"", "\")").unwrap_or_else(|| panic!("size rung suffix {}", cond)).to_string();
+                let body = qs(&i.then_branch).replace(' ', "");
+                let m: u64 = between(&body, "(length-", ")").unwrap_or_else(|| panic!("size rung strip {}", body)).parse().expect("strip length");
+                let ty = between(&body, "parse::<", ">").unwrap_or_else(|| panic!("size rung parse type")).to_string();
+                // the Ok arm's factors
+                let mut mc = MatchCollector { matches: vec![] };
+                mc.visit_block(&i.then_branch);
+                let mm = mc.matches.first().expect("size rung match");
+                let okarm = mm.arms.iter().find(|a| qs(&a.pat).starts_with("Ok")).expect("Ok arm");
+                let mut nl = NumLits { lits: vec![] };
+                nl.visit_expr(&okarm.body);
+                let factors: Vec<String> = nl.lits.iter().map(|l| {
+                    let v: f64 = l.parse().unwrap();
+                    if v.fract() != 0.0 { panic!("non-integral factor {}", l); }
+                    format!("{}%Z", v as u64)
+                }).collect();
+                if !qs(&okarm.body).replace(' ', "").contains("asu64") && ty == "f64" { panic!("size rung: float result not cast to u64"); }
+                rungs.push(format!("({}, {}%N, {}%N, [{}], {})", coq_str(&sfx), n, m, factors.join("; "), if ty == "f64" { "true" } else if ty == "u64" { "false" } else { panic!("size rung type {}", ty) }));
+            }
+            Stmt::Expr(e, None) => {
+                let t = qs(e).replace(' ', "");
+                if t.contains("parse::<u64>().ok()") { final_parse = Some("u64"); }
+            }
+            _ => {}
+        }
+    }
+    writeln!(o, "(* suffix, `length > n`, characters stripped, multiplication factors in order, parsed as f64 (true) or u64 (false) *)").unwrap();
+    writeln!(o, "Definition size_ladder : list (str * N * N * list Z * bool) :=\n  [ {} ].", rungs.join(";\n    ")).unwrap();
+    writeln!(o, "Definition size_lowercases : bool := {}.\nDefinition size_strips_spaces : bool := {}.", lowers, strips).unwrap();
+    writeln!(o, "Definition size_plain_is_u64 : bool := {}.", final_parse == Some("u64")).unwrap();
+    // str_to_bool
+    let f = find_fn(&file.items, "str_to_bool").expect("str_to_bool");
+    let (rows, lowered) = string_table_bool(&f.block);
+    writeln!(o, "Definition str_to_bool_table : list (str * bool) :=\n  [ {} ].", rows.iter().map(|(l, b)| format!("({}, {})", coq_str(l), b)).collect::<Vec<_>>().join("; ")).unwrap();
+    writeln!(o, "Definition str_to_bool_lowercases : bool := {}.", lowered).unwrap();
+    writeln!(o, "Definition str_to_bool (x : str) : option bool := assoc (if str_to_bool_lowercases then ascii_lower x else x) str_to_bool_table.").unwrap();
+    o
+}
+
+fn string_table_bool(block: &Block) -> (Vec<(String, bool)>, bool) {
+    let m = block.stmts.iter().filter_map(|s| match s { Stmt::Expr(Expr::Match(m), _) => Some(m), _ => None }).last().expect("str_to_bool match");
+    let whole = qs(block).replace(' ', "");
+    let lowered = whole.contains("to_ascii_lowercase()") || whole.contains("to_lowercase()");
+    let mut rows = vec![];
+    for arm in &m.arms {
+        let body = qs(&arm.body).replace(' ', "");
+        let v = if body == "Some(true)" { Some(true) } else if body == "Some(false)" { Some(false) } else if body == "None" { None } else { panic!("str_to_bool arm {}", body) };
+        for p in pat_alts(&arm.pat) {
+            if let Pat::Wild(_) = p { continue; }
+            let lit = pat_lit_str(p).expect("str_to_bool literal");
+            rows.push((lit, v.expect("literal arm maps to None")));
+        }
+    }
+    (rows, lowered)
+}
+
+// ---------------- E21: stdout write sites and the exit-status mapping ----------------
+
+struct WriteSites {
+    guarded: usize,
+    ignored: usize,
+    propagated: usize,
+    unhandled: usize,
+    detail: Vec<String>,
+}
+fn mentions_stdout<T: quote::ToTokens>(t: &T) -> bool {
+    qs(t).replace(' ', "").contains("stdout()")
+}
+impl<'a> syn::visit::Visit<'a> for WriteSites {
+    fn visit_expr_try(&mut self, t: &'a ExprTry) {
+        if mentions_stdout(&t.expr) {
+            self.propagated += 1;
+            self.detail.push(format!("propagated: {}", qs(&t.expr).chars().take(80).collect::<String>()));
+            return;
+        }
+        syn::visit::visit_expr_try(self, t);
+    }
+    fn visit_expr_if(&mut self, i: &'a ExprIf) {
+        if let Expr::Let(l) = &*i.cond {
+            if mentions_stdout(&l.expr) && qs(&l.pat).starts_with("Err") {
+                if qs(&i.then_branch).contains("BrokenPipe") {
+                    self.guarded += 1;
+                } else {
+                    self.unhandled += 1;
+                    self.detail.push(format!("error branch without BrokenPipe test: {}", qs(&l.expr).chars().take(80).collect::<String>()));
+                }
+                syn::visit::visit_block(self, &i.then_branch);
+                if let Some((_, e)) = &i.else_branch { syn::visit::visit_expr(self, e); }
+                return;
+            }
+        }
+        syn::visit::visit_expr_if(self, i);
+    }
+    fn visit_local(&mut self, l: &'a Local) {
+        if let Some(init) = &l.init {
+            if mentions_stdout(&init.expr) && qs(&l.pat) == "_" {
+                self.ignored += 1;
+                return;
+            }
+        }
+        syn::visit::visit_local(self, l);
+    }
+    fn visit_stmt(&mut self, st: &'a Stmt) {
+        match st {
+            Stmt::Expr(e, Some(_)) if mentions_stdout(e) && !matches!(e, Expr::If(_) | Expr::Try(_) | Expr::ForLoop(_) | Expr::While(_) | Expr::Match(_) | Expr::Block(_)) => {
+                // a bare `write!(stdout(), ..);` statement: result dropped
+                self.ignored += 1;
+            }
+            Stmt::Macro(m) if m.mac.path.is_ident("write") && mentions_stdout(&m.mac) => {
+                self.ignored += 1;
+            }
+            _ => syn::visit::visit_stmt(self, st),
+        }
+    }
+}
+
+fn site_pipe(src: &Path) -> String {
+    use syn::visit::Visit;
+    let file = read_file(src, "searcher.rs");
+    let mut ws = WriteSites { guarded: 0, ignored: 0, propagated: 0, unhandled: 0, detail: vec![] };
+    for name in ["list_search_results", "check_file", "visit_dir"] {
+        let f = find_impl_fn(&file.items, "Searcher", name).unwrap_or_else(|| panic!("Searcher::{} not found", name));
+        ws.visit_block(&f.block);
+    }
+    let mut o = String::from(HDR_N);
+    o.push_str("(* from src/searcher.rs: every write to std::io::stdout() in list_search_results / check_file / visit_dir,\n   classified by what happens to its io::Error, and from src/main.rs: the exit-status mapping *)\n");
+    writeln!(o, "Definition stdout_guarded_sites : nat := {}.  (* if let Err(e) = .. {{ if e.kind() == BrokenPipe {{ return .. }} }} *)", ws.guarded).unwrap();
+    writeln!(o, "Definition stdout_ignored_sites : nat := {}.  (* let _ = .. *)", ws.ignored).unwrap();
+    writeln!(o, "Definition stdout_propagated_sites : nat := {}.  (* `?`: the error reaches unwrap() in main *)", ws.propagated).unwrap();
+    writeln!(o, "Definition stdout_unhandled_sites : nat := {}.", ws.unhandled).unwrap();
+    for d in &ws.detail {
+        writeln!(o, "(* {} *)", d.replace("*)", "* )")).unwrap();
+    }
+    // main.rs: exec_search's status mapping
+    let mainf = read_file(src, "main.rs");
+    let es = find_fn(&mainf.items, "exec_search").expect("exec_search");
+    let body = qs(&es.block).replace(' ', "");
+    let unwraps_search = body.contains("list_search_results().unwrap()");
+    // match error_count { 0 => 0, _ => 1 }
+    let zero = between(&body, "matcherror_count{0=>", ",").unwrap_or_else(|| panic!("exec_search: error_count mapping")).to_string();
+    let other = between(&body, ",_=>", ",}").or_else(|| between(&body, ",_=>", "}")).unwrap_or_else(|| panic!("exec_search: error_count mapping (_)")).to_string();
+    let err = between(&body, "error_message(\"query\",&err);", "}").unwrap_or_else(|| panic!("exec_search: Err arm")).to_string();
+    writeln!(o, "Definition status_no_errors : N := {}%N.\nDefinition status_some_errors : N := {}%N.\nDefinition status_parse_error : N := {}%N.", zero, other, err).unwrap();
+    writeln!(o, "Definition main_unwraps_search_result : bool := {}.", unwraps_search).unwrap();
+    let util = read_file(src, "util/mod.rs");
+    let ee = find_fn(&util.items, "error_exit").expect("error_exit");
+    let eb = qs(&ee.block).replace(' ', "");
+    let code = between(&eb, "exit(", ")").expect("error_exit code");
+    writeln!(o, "Definition status_error_exit : N := {}%N.", code).unwrap();
     o
 }
